@@ -404,6 +404,13 @@ Proof.
   exact Hl.
 Qed.
 
+(* the dial bookkeeping is invisible to the invariant *)
+Lemma pres_dial_only s n b : Inv s -> Inv (set_dial s n b).
+Proof.
+  intros I. split_inv; try (exact (inv_entry s I)); try (exact (inv_exec s I)); try (exact (inv_orphan s I));
+    try (exact (inv_delivered s I)); try (exact (inv_phase s I)); try (exact (inv_holding s I)); try (exact (inv_link s I)).
+Qed.
+
 Lemma nil_b_true {A} (l : list A) : nil_b l = true -> l = [].
 Proof. destruct l; [reflexivity|discriminate]. Qed.
 
@@ -417,7 +424,7 @@ Qed.
 Lemma pres_ReconnBegin s s' : Inv s -> step repaired_c s ReconnBegin = Some s' -> Inv s'.
 Proof.
   intros I H. inv_step H. destruct (holding s); [discriminate|]. destruct (is_up s); [|discriminate]. injection H as <-.
-  apply pres_link_only; auto.
+  apply pres_dial_only. apply pres_link_only; auto.
 Qed.
 
 Lemma pres_RedialSwap s s' : Inv s -> step repaired_c s RedialSwap = Some s' -> Inv s'.
@@ -434,12 +441,15 @@ Proof.
 Qed.
 
 Lemma pres_RedialAttempt s n s' : Inv s -> step repaired_c s (RedialAttempt n) = Some s' -> Inv s'.
-Proof. intros I H. inv_step H. destruct (is_redial s); [|discriminate]. injection H as <-. exact I. Qed.
+Proof.
+  intros I H. inv_step H. destruct (is_redial s && Nat.eqb n (redial_n s) && negb (slept s))%bool; [|discriminate].
+  injection H as <-. apply pres_dial_only. exact I.
+Qed.
 
 Lemma pres_RedialDialed s ok s' : Inv s -> step repaired_c s (RedialDialed ok) = Some s' -> Inv s'.
 Proof.
   intros I H. inv_step H. destruct (lnk s) eqn:Hl; try discriminate.
-  - injection H as <-. exact I.
+  - destruct (slept s); [|discriminate]. injection H as <-. apply pres_dial_only. exact I.
   - injection H as <-. apply pres_link_only; [exact I|]. intros Hne. destruct (inv_link s I Hne) as [Hu|Hc]; [|auto].
     unfold is_up in Hu. rewrite Hl in Hu. discriminate.
 Qed.
@@ -610,8 +620,8 @@ Proof.
   - destruct (holding s); [discriminate|]. destruct (nil_b (inflight s)); [|discriminate]. injection H as <-. apply ch_same.
   - destruct (holding s); [discriminate|]. destruct (is_up s); [|discriminate]. injection H as <-. apply ch_same.
   - destruct (is_redial s && negb (cif_pending s) && nil_b (inflight s))%bool; [|discriminate]. injection H as <-. apply ch_same.
-  - destruct (is_redial s); [|discriminate]. injection H as <-. apply ch_same.
-  - destruct (lnk s); try discriminate; injection H as <-; apply ch_same.
+  - destruct (is_redial s && Nat.eqb n (redial_n s) && negb (slept s))%bool; [|discriminate]. injection H as <-. apply ch_same.
+  - destruct (lnk s); try discriminate; [destruct (slept s); [|discriminate]|]; injection H as <-; apply ch_same.
   - destruct (holding s); [discriminate|]. destruct (nil_b (inflight s) && negb (is_exited s))%bool; [|discriminate].
     injection H as <-. apply ch_same.
   - destruct (lookup id (calls s)) as [c|] eqn:L; [|discriminate]. destruct (ph c) eqn:P; try discriminate.
